@@ -106,8 +106,8 @@ static int decode_header(const tar_header_t *hdr, unsigned int set_by_pax,
 		if (read_number(hdr->mtime, sizeof(hdr->mtime), &field))
 			return -1;
 		if (field & 0x8000000000000000UL) {
-			field = ~field + 1;
-			out->mtime = -((sqfs_s64)field);
+			field = ~field;
+			out->mtime = -((sqfs_s64)field) - 1;
 		} else {
 			out->mtime = field;
 		}
